@@ -86,7 +86,7 @@ def main():
     for s in viols[:40]:
         vclass, msg = s['viol'][0]
         case = dict(s['case'], tape=s['tape'])
-        k = batch.match_known(prop, case, vclass)
+        k = batch.match_known(prop, case, vclass, msg=msg)
         if k is not None:
             key = k['id']
             if key not in reported:
@@ -116,7 +116,9 @@ def main():
             continue
         mn = shrink.Minimiser(spec, vclass, budget_s=float(os.environ.get('DSIM_SHRINK_S', '60')))
         small = mn.run(case)
-        k = batch.match_known(prop, small, vclass)
+        res_small = spec.execute(small)
+        msg_small = next((v[1] for v in res_small.violations if v[0] == vclass), msg)
+        k = batch.match_known(prop, small, vclass, msg=msg_small)
         if k is not None:
             n_viol -= 1
             if k['id'] not in reported:
